@@ -366,6 +366,11 @@ def run_property(mod, prop, tier, seed, build, t0, skip_d=False, skip_b=False, o
                 undecided.append("obligation=%s (finite-instance model not trusted for this clause)" % c["name"])
                 continue
             failed_clauses.append(c)
+        elif (c["verdict"] == "refuted" and c.get("kind") == "frame" and exp_names is not None and c["fn"] in exp_hashes
+              and cur_hashes.get(c["fn"]) not in (None, exp_hashes[c["fn"]])):
+            # a frame clause that did not exist on the reference tree: the CHANGED function now writes a field its contract's `modifies` excludes, and the
+            # solver gives a model in which the written object existed on entry
+            failed_clauses.append(c)
         else:
             undecided.append("obligation=%s (%s)" % (c["name"], c["verdict"]))
     if exp_names is not None and not skip_d:
